@@ -649,6 +649,14 @@ func genC10Lin(t *rapid.T) *C10Case {
 			c.Setup = append(c.Setup, LRUOp{Kind: "S", Key: k, Val: 900 + i})
 		}
 	}
+	if len(c.Setup) > 0 && rapid.IntRange(0, 7).Draw(t, "loadBurst") == 0 {
+		// a long run of Loads (no write in between) before the concurrent phase
+		m := rapid.IntRange(60, 200).Draw(t, "burstLen")
+		for j := 0; j < m; j++ {
+			c.Setup = append(c.Setup, LRUOp{Kind: "L", Key: []string{"a", "b", "c"}[j%3]})
+		}
+		c.Setup = append(c.Setup, LRUOp{Kind: "L", Key: rapid.SampledFrom([]string{"a", "b", "c"}).Draw(t, "afterBurst")})
+	}
 	G := rapid.IntRange(2, 4).Draw(t, "goroutines")
 	for g := 0; g < G; g++ {
 		n := rapid.IntRange(1, 5).Draw(t, "n")
